@@ -9,7 +9,7 @@ claimed = {
          "TLC-enumerated matcher vectors replayed on the real router (spec -> code conformance)", "5"),
  "C02": (MC, "TLC explores every history of Handle/HandleRoute/Update/UpdateRoute/Delete over a pool (valid, conflicting and malformed patterns, valid and invalid methods) and of transactions with Truncate; every edge of the state graph is replayed on a fresh router along the BFS path to its source state, the call result (error class, conflict list, returned route) and every read (Len, Has, Route, All, Methods, Routes, Prefix, Reverse, Lookup) compared with the specification.",
          "TLC state graph of the registration API replayed edge by edge on the real router", "5"),
- "C03": (MC, "TLC checks SnapshotFrozen on the router machine with a write/read transaction and a snapshot handle (Router.Iter, Txn.Iter, Txn.Snapshot, read-only Txn); every edge is replayed and every live snapshot object re-read in full after the later call. spec/FoxCow.tla models the copy-on-write heap (nodes and children slices with identities, the transaction's writable set, snapshots); TLC checks over the whole state space of the mechanism that no write touches anything reachable from a published root or a snapshot and refutes six wrong variants; every transition is replayed on the real router, snapshots are re-read through the API, and the dumped trees and their sharing (node and slice addresses) are compared with the model's.",
+ "C03": (MC, "TLC checks SnapshotFrozen on the router machine with a write/read transaction and a snapshot handle (Router.Iter, Txn.Iter, Txn.Snapshot, read-only Txn); every edge is replayed and every live snapshot object re-read in full after the later call. spec/FoxCow.tla models the copy-on-write heap (nodes and children slices with identities, the transaction's writable set, snapshots); TLC checks over the whole state space of the mechanism that no write touches anything reachable from a published root or a snapshot and refutes six wrong variants; every transition is replayed on the real router, snapshots are re-read through the API, and the dumped trees and their sharing (node and slice addresses) are compared with the model's. spec/FoxRoots.tla does the same for the roots slice (one entry per method; Truncate, root add/remove).",
          "TLC state graph with snapshots replayed on the real router, snapshots re-observed after every later step", "5"),
  "C04": (MC, "TLC checks PublishOnlyAtCommit, WritesArePrivate, AbortLeavesNothing, FailedCallNoEffect and LockDiscipline over all transactions of bounded length with every ending (commit, abort, returned error, panic, settled use, read-only writes); every edge is replayed with Router.Txn, Updates and View and the router and the transaction are read back between steps.",
          "TLC state graph of transactions (all endings) replayed on the real router", "5"),
